@@ -102,6 +102,28 @@ func oracle(r *vlib.Rec) bfsbuild.Oracle {
 			}
 			m, err := capnp.Unmarshal(b)
 			check("marshal", "Marshal→Unmarshal", m, err)
+			// a received message can be modified: allocating in any of its
+			// segments must not disturb what is already there
+			allocIn := func(path, how string, m *capnp.Message) {
+				if m == nil {
+					return
+				}
+				for id := int64(0); id < m.NumSegments(); id++ {
+					seg, serr := m.Segment(capnp.SegmentID(id))
+					if serr != nil {
+						continue
+					}
+					if st, aerr := capnp.NewStruct(seg, capnp.ObjectSize{DataSize: 16, PointerCount: 1}); aerr == nil {
+						st.SetUint64(0, ^uint64(0))
+						st.SetUint64(8, ^uint64(0))
+						st.SetNewText(0, "\xff\xff\xff\xff\xff\xff\xff\xff\xff")
+					}
+				}
+				check(path, how+", then a struct and a text allocated through every segment of the received message and filled with 0xFF: everything that was there must read as before", m, nil)
+			}
+			if err == nil {
+				allocIn("marshal+alloc", "Marshal→Unmarshal", m)
+			}
 			bp, err := w.Msg.MarshalPacked()
 			if err != nil {
 				fail("roundtrip/marshal-packed/error", "MarshalPacked: "+err.Error())
@@ -109,6 +131,9 @@ func oracle(r *vlib.Rec) bfsbuild.Oracle {
 			}
 			m, err = capnp.UnmarshalPacked(bp)
 			check("marshal-packed", "MarshalPacked→UnmarshalPacked", m, err)
+			if err == nil {
+				allocIn("marshal-packed+alloc", "MarshalPacked→UnmarshalPacked", m)
+			}
 			for _, packed := range []bool{false, true} {
 				var buf bytes.Buffer
 				path := "stream"
@@ -149,7 +174,11 @@ func oracle(r *vlib.Rec) bfsbuild.Oracle {
 						}
 						for n := 1; n <= 2; n++ {
 							m, err := dec.Decode()
-							check(path, fmt.Sprintf("Encoder→Decoder (%s, message %d of 2 on the stream, reader chunks of %d bytes (0 = whole), ReuseBuffer %v)", path, n, k, reuse), m, err)
+							how := fmt.Sprintf("Encoder→Decoder (%s, message %d of 2 on the stream, reader chunks of %d bytes (0 = whole), ReuseBuffer %v)", path, n, k, reuse)
+							check(path, how, m, err)
+							if err == nil && k == 0 && !reuse && n == 2 {
+								allocIn(path+"+alloc", how, m)
+							}
 						}
 						if _, err := dec.Decode(); err == io.EOF {
 							r.Outcome("stream/end:EOF")
